@@ -219,6 +219,7 @@ class HidSim:
         self.traffic = []             # (virtual time, command, response, error flag)
         self.driver.connection_status_callback.register(lambda d, s: self.status.append((self.loop.time(), s)))
         self.tasks = []
+        self.delivered = []           # (virtual time, report) in the order the host read them
 
     # ---- describing commands to the gateway --------------------------------
     def expect(self, cmd, outcome):
@@ -268,6 +269,7 @@ class HidSim:
         if self.gw.fd is None or self.gw.fd not in self.loop.fd_readers:
             return False           # nobody listening: report lost
         self.gw.readbuf.append(rep)
+        self.delivered.append((self.loop.time(), rep))
         self.loop.fire_reader(self.gw.fd)
         return True
 
